@@ -120,6 +120,26 @@ impl Stage<'_> {
         self.groups.len()
     }
 
+    /// Verification hook: `(address, size)` of every boxed system that is
+    /// really executed, per group.
+    #[cfg(feature = "verif-hooks")]
+    pub fn verif_layout(&self) -> Vec<Vec<(usize, usize)>> {
+        self.groups
+            .iter()
+            .map(|g| {
+                g.iter()
+                    .map(|s| {
+                        let r: &(dyn for<'x> crate::system::RunNow<'x> + Send) = &**s;
+                        (
+                            r as *const _ as *const () as usize,
+                            std::mem::size_of_val(r),
+                        )
+                    })
+                    .collect()
+            })
+            .collect()
+    }
+
     pub fn execute_seq(&mut self, world: &World) {
         for group in &mut self.groups {
             for system in group {
@@ -170,6 +190,13 @@ impl<'a> StagesBuilder<'a> {
 
     pub fn add_barrier(&mut self) {
         self.barrier = self.stages.len();
+    }
+
+    /// Verification hook: layout of the executed list (not of the `ids`
+    /// bookkeeping table).
+    #[cfg(feature = "verif-hooks")]
+    pub fn verif_layout(&self) -> Vec<Vec<Vec<(usize, usize)>>> {
+        self.stages.iter().map(|s| s.verif_layout()).collect()
     }
 
     pub fn insert<T>(&mut self, mut dep: SmallVec<[SystemId; 4]>, id: SystemId, system: T)
